@@ -81,7 +81,7 @@ pub fn tracegen_only(prop: &str, seed: u64, runs: usize, only: Option<usize>) ->
                 prop,
                 run,
                 s,
-                Knobs { allow_random: true, p_reset: if run % 4 == 1 { 0.2 } else { 0.12 }, big_consts: run % 3 == 0, max_virtuals: if run % 4 == 1 { 2 } else { 1 }, random_in_declares: run % 4 == 1, p_x: 0.05, p_c: 0.05, max_depth: 3, p_while: if run % 2 == 0 { 0.12 } else { 0.04 },
+                Knobs { allow_random: true, p_reset: if run % 4 == 1 { 0.2 } else { 0.12 }, big_consts: run % 3 == 0, max_virtuals: if run % 4 == 1 { 2 } else { 1 }, random_in_declares: run % 4 == 1, zero_bits: run % 3 == 2, p_x: 0.05, p_c: 0.05, max_depth: 3, p_while: if run % 2 == 0 { 0.12 } else { 0.04 },
                         ..Knobs::control_flow() },
                 Opt::default(),
               );
@@ -570,7 +570,7 @@ fn tree(g: &mut Gen, depth: usize, plan: &Plan) -> Expr {
 // C10: conditions that make evaluation impossible, at every expression position; wide signals
 
 fn error_run(prop: &str, run: usize, seed: u64) -> Vec<J> {
-    let mut g = Gen::new(seed, Knobs { p_device: 0.3, big_consts: true, bidir: true, p_c: 0.05, p_x: 0.03, max_stmts: 12, max_virtuals: 1, ..Knobs::control_flow() });
+    let mut g = Gen::new(seed, Knobs { p_device: 0.3, big_consts: true, bidir: true, p_c: 0.05, p_x: 0.03, max_stmts: 12, max_virtuals: 1, zero_bits: run % 4 == 0, ..Knobs::control_flow() });
     let mut plan = g.plan();
     // wide signals
     for s in plan.supplied.iter_mut() {
@@ -1111,6 +1111,7 @@ fn scale_run(wl: &str, run: usize, seed: u64) -> Vec<J> {
     };
     let names = |v: &[&str]| -> Vec<String> { v.iter().map(|s| s.to_string()).collect() };
     let mut opt = Opt::default();
+    let mut drop_from_layout: Option<String> = None;
     let mut layout = choose_layout(Lay::Mixed, seed, &mut rng);
     let mut max_rows = 400;
     let mut fault: Option<(usize, Fault)> = None;
@@ -1245,6 +1246,29 @@ fn scale_run(wl: &str, run: usize, seed: u64) -> Vec<J> {
             opt.layouts = LayoutMode::Subset;
             opt.mode = ValMode::InWidth;
             opt.p_zx = 0.1;
+            (header, supplied, prog)
+        }
+        "manyreads" => {
+            // more than 64 signals; the program reads two outputs whose positions in the signal list are 64 apart; the driver
+            // leaves out one of them, the other, or neither: the constructor must refuse exactly when a read output is missing
+            let n = 66 + variant % 6;
+            let mut supplied: Vec<Sig> = (0..n).map(|i| Sig::output(&format!("O{i}"), 8)).collect();
+            let at = variant % 3;
+            supplied.insert(if at == 0 { 0 } else if at == 1 { n } else { 40 }, Sig::input("A", 8, Val::N(1)));
+            let k = variant % (n - 64);
+            let (lo, hi) = (format!("O{k}"), format!("O{}", k + 64));
+            let header = names(&["A", "O1"]);
+            let prog = vec![
+                row(vec![Entry::Expr(Expr::bin("+", Expr::id(&lo), Expr::num(1))), Entry::X]),
+                row(vec![Entry::Expr(Expr::bin("&", Expr::id(&hi), Expr::num(15))), Entry::X]),
+            ];
+            opt.layouts = LayoutMode::Full;
+            opt.mode = ValMode::InWidth;
+            drop_from_layout = match (variant / 3) % 3 {
+                0 => Some(hi),
+                1 => Some(lo),
+                _ => None,
+            };
             (header, supplied, prog)
         }
         "manyvars" => {
@@ -1429,6 +1453,10 @@ fn scale_run(wl: &str, run: usize, seed: u64) -> Vec<J> {
     let mut spec = policy_for(&test, &opt, seed, &mut rng, 6);
     if fam == "emptylayout" || fam == "emptyfault" {
         spec.layout.clear();
+    }
+    if let Some(name) = &drop_from_layout {
+        let table: Vec<&Sig> = test.supplied.iter().filter(|s| s.is_out()).collect();
+        spec.layout.retain(|j| &table[*j].name != name);
     }
     if fam == "emptyfault" {
         // a driver that reports nothing at first and deviates from that later (one more output, an error)
